@@ -2,7 +2,7 @@
 HierarchicalAsyncMachine): a generated flat description gets a random tree imposed on its states —
 compound states with an initial child, parallel states, transitions whose source / destination are
 leaves or ancestors — and is realised through the public dict format of `HierarchicalMachine`."""
-from . import aflat, flat
+from . import aflat, flat, common
 
 
 def impose_tree(d, rng, p_child=0.6, p_parallel=0.35, max_depth=2, p_local=0.5):
@@ -53,8 +53,54 @@ def full_name(d, i):
     return getattr(d, 'sep', '_').join(reversed(parts))
 
 
+TO = 5      # history command (TO, model, state): `model.to(<full state name>)`, the hierarchical classes' helper
+
+
 class NRun7(aflat.Run7):
     """Run7 on the hierarchical classes with the tree of the description"""
+
+    def _to_call(self, c, tag):
+        _kind, a, b = c
+        self.items.append(('api', TO, tag, a, b))
+        self.tag_event[tag] = 'to'
+        return self.model_objs[a].to(full_name(self.d, b), tag, m=a)
+
+    def _to_done(self, tag, r=None, exc=None):
+        if exc is not None:
+            if isinstance(exc, common.MachineryError):
+                raise exc
+            self.items.append(('raised', tag) + flat.canon_exc(exc))
+            return
+        self.items.append(('ret', tag, int(bool(r))))
+
+    def do_cmd(self, c):
+        if c[0] != TO:
+            return aflat.Run7.do_cmd(self, c)
+        tag = self.next_tag
+        self.next_tag += 1
+        try:
+            r = self._to_call(c, tag)
+        except BaseException as e:
+            self._to_done(tag, exc=e)
+            raise
+        self._to_done(tag, r)
+        return r
+
+    async def ado_cmd(self, c):
+        if c[0] != TO:
+            return await aflat.Run7.ado_cmd(self, c)
+        import inspect
+        tag = self.next_tag
+        self.next_tag += 1
+        try:
+            r = self._to_call(c, tag)
+            if inspect.isawaitable(r):      # a careful caller awaits what is awaitable
+                r = await r
+        except BaseException as e:
+            self._to_done(tag, exc=e)
+            raise
+        self._to_done(tag, r)
+        return r
 
     def node_def(self, i):
         s = self.d.states[i]
